@@ -133,7 +133,7 @@ fn case_typed<S: Spec>(sub: &str, id: u64, r: &mut Report) {
         }
         "from_rng" => {
             let is_xs = S::NAME == "XorShiftRng";
-            let k = if is_xs { p.below(4) as usize } else { 0 };
+            let k = if !is_xs { 0 } else if p.chance(1, 2) { p.below(4) as usize } else { *p.pick(&ZERO_BLOCK_COUNTS) };
             let need = expected_calls::<S>(k).iter().map(|c| if let SrcCall::Fill(n) = c { *n } else { 0 }).sum::<usize>();
             let mut data = vec![0u8; k * 16];
             // sometimes an all-zero block for the remapping generators
@@ -142,6 +142,8 @@ fn case_typed<S: Spec>(sub: &str, id: u64, r: &mut Report) {
             } else {
                 while data.len() < need {
                     let (_, s) = gen_seed(&mut p, S::SEED_LEN, wb, false);
+                    // the documented zero-seed substitute arriving as ordinary data
+                    let s = if (S::LINEAR && p.chance(1, 8)) { r.cov("preset_block_as_data"); preset_block(S::NAME, S::SEED_LEN) } else { s };
                     data.extend_from_slice(&s);
                 }
             }
@@ -253,6 +255,7 @@ pub fn run(ctx: &Ctx, only: Option<&Only>) -> Report {
         total.floor(&format!("from_rng:{}", n), 50);
     }
     total.floor("error_propagated", 100);
+    total.floor("preset_block_as_data", 100);
     for f in 0..=2 {
         total.floor(&format!("fail_position:{}", f), 100);
     }
